@@ -150,41 +150,89 @@ def comparable_decoded(root, objs, known_reg):
 
 
 def hashcons(root, objs):
-    """identify immutable objects with equal contents (what janet `=` and therefore the describer does)"""
-    canon, ren, out = {}, {}, []
-    def r(t):
-        return "r%d" % ren[int(t[1:])] if t.startswith("r") and t[1:].isdigit() and int(t[1:]) in ren else t
-    for i, o in enumerate(objs):
-        k = o[0]
-        if k.startswith("T"):
-            o = ["T%d" % (int(k[1:]) & 1)] + o[1:]      # only the bracket bit of the flag word is observable (tuple/type)
-        elif k.startswith("R"):
-            o = [canon_real(k)]
-        o2 = [o[0]] + [r(t) for t in o[1:]]
-        key = " ".join(o2)
-        immutable = k[0] in "RSTUG" and key != "R000000000000f87f"
-        if immutable and key in canon:
-            ren[i] = canon[key]
-            continue
-        ren[i] = len(out)
-        if immutable:
-            canon[key] = len(out)
-        out.append(o2)
-    return r(root), out
+    """normal form of a decoded description: what the describer (which sees the value only through janet) reports.
+    Immutable objects with equal contents are one object (janet `=`), a real that is an int32 is an integer, only the
+    bracket bit of a tuple flag is observable, every NaN is the canonical NaN.  Iterated to a fixed point because merging
+    children can make parents equal."""
+    objs = [list(o) for o in objs]
+    for o in objs:
+        if o[0].startswith("T"):
+            o[0] = "T%d" % (int(o[0][1:]) & 1)
+        elif o[0].startswith("R"):
+            o[0] = canon_real(o[0])
+    while True:
+        subst, seen = {}, {}
+        for i, o in enumerate(objs):
+            k = o[0]
+            if k.startswith("R") and len(k) == 17:
+                v = struct.unpack("<d", bytes.fromhex(k[1:]))[0]
+                if v == v and abs(v) <= 2147483648 and v == int(v) and -2147483648 <= int(v) <= 2147483647:
+                    subst[i] = "i%d" % int(v)
+                    continue
+            key = " ".join(o)
+            if k[0] in "RSTUG" and key != "R000000000000f87f":
+                if key in seen:
+                    subst[i] = "r%d" % seen[key]
+                else:
+                    seen[key] = i
+        if not subst:
+            break
+        newidx, j = {}, 0
+        for i in range(len(objs)):
+            if i not in subst:
+                newidx[i] = j
+                j += 1
+        def tr(t):
+            if t.startswith("r") and t[1:].isdigit():
+                k = int(t[1:])
+                if k in subst:
+                    t2 = subst[k]
+                    return "r%d" % newidx[int(t2[1:])] if t2.startswith("r") else t2
+                if k in newidx:
+                    return "r%d" % newidx[k]
+            return t
+        root = tr(root)
+        objs = [[o[0]] + [tr(t) for t in o[1:]] for i, o in enumerate(objs) if i not in subst]
+    return root, objs
+
+
+def renumber(root, objs):
+    """number the objects in the order the describer meets them when it walks the decoded value (a pair dropped by
+    janet_struct_put / janet_table_put can make an object first reachable later than its position on the wire)"""
+    import sys
+    sys.setrecursionlimit(max(sys.getrecursionlimit(), 20000))
+    new, order, busy = {}, [], set()
+    def visit(t):
+        if not (t.startswith("r") and t[1:].isdigit()):
+            return
+        k = int(t[1:])
+        if k in new or k in busy or k >= len(objs):
+            return
+        o = objs[k]
+        if o[0][0] in "TU":
+            busy.add(k)
+            for c in o[1:]:
+                visit(c)
+            busy.discard(k)
+            new[k] = len(order)
+            order.append(k)
+        else:
+            new[k] = len(order)
+            order.append(k)
+            for c in o[1:]:
+                visit(c)
+    visit(root)
+    def tr(t):
+        return "r%d" % new[int(t[1:])] if t.startswith("r") and t[1:].isdigit() and int(t[1:]) in new else t
+    return tr(root), [[objs[k][0]] + [tr(t) for t in objs[k][1:]] for k in order]
 
 
 def canon_decoded(root, objs):
     root, objs = hashcons(root, objs)
+    root, objs = renumber(root, objs)
     out = []
     for o in objs:
         k = o[0]
-        if k.startswith("R"):
-            out.append(canon_real(k))
-            continue
-        if k.startswith("T"):
-            # only the bracket bit of the flag word is observable from janet (tuple/type)
-            out.append(" ".join(["T%d" % (int(k[1:]) & 1)] + o[1:]))
-            continue
         if k.startswith("M") or k == "U":
             kv = o[2:]
             pairs = sorted(zip(kv[0::2], kv[1::2]))
@@ -407,7 +455,8 @@ def run(ctx):
                         ddiffs.append({"hex": h, "impl": a, "model": b})
                         continue
                     iroot, iobjs = parse_desc(a[3:])
-                    if not comparable_decoded(mroot, mobjs, known_reg) or not comparable_decoded(iroot, iobjs, known_reg):
+                    if not comparable_decoded(mroot, mobjs, known_reg) or not comparable_decoded(iroot, iobjs, known_reg) \
+                            or not comparable_decoded(*hashcons(mroot, mobjs), known_reg):
                         dstats["both_accept_uncompared"] += 1
                         continue
                     if canon_decoded(mroot, mobjs) == canon_decoded(iroot, iobjs):
